@@ -1,4 +1,5 @@
 import IwModel.Model.JsonPtr
+import IwModel.Model.JsonPrint
 /-! Executable model of the two JSON text printers: `_jbl_node_as_json` (tree, `iwjser.c`) and `_jbl_as_json`
 (binary form, `iwjson.c`). The structure (brackets, commas, indentation, key/value order) is modelled for both;
 the text of the leaves comes from `Leaf` functions so that the agreement theorem holds for *any* number and
@@ -179,6 +180,10 @@ def ftoa (bits : Nat) : Bytes :=
   let fdig := (fdig.reverse.dropWhile (· == 48)).reverse
   (if sign = 1 then [45] else []) ++ Ptr.dec ip ++ (if fdig.isEmpty then [] else 46 :: fdig)
 
-def stdLeaf (codepoints : Bool) : Leaf := ⟨decInt, ftoa, escStr codepoints⟩
+/-- the leaf formatting of the current code: string and number writers of the C13 model
+    (`_jbl_write_json_string`, `iwjson_ftoa`); `escStr`/`ftoa` above describe the pinned tree before the
+    printer fixes and are kept for reference -/
+def stdLeaf (codepoints : Bool) : Leaf :=
+  ⟨decInt, Json.ftoa, fun s => match Json.writeString codepoints s with | .ok b => some b | .error _ => none⟩
 
 end IwModel.BinnPrint
